@@ -155,6 +155,8 @@ type c18Op struct {
 	Name string
 	// BadSig: the request is signed with a wrong secret (both sides must refuse it and change nothing)
 	BadSig bool
+	// Stream: the body is sent aws-chunked with signed chunks (sizes 5, 1, rest)
+	Stream bool
 	Req    func(st map[string]string) *gw.Req
 	// Post extracts state (upload id, part etag) from the response
 	Post func(st map[string]string, resp *gw.Resp)
@@ -192,6 +194,16 @@ func c18Ops(thorough bool) []c18Op {
 		}},
 		{Name: "CreateBucket BucketOwnerPreferred", Req: func(map[string]string) *gw.Req {
 			return NewReq("PUT", "/"+c18B, "", H("x-amz-object-ownership", "BucketOwnerPreferred"), nil)
+		}},
+		{Name: "CreateBucket of the other account's bucket", Req: func(map[string]string) *gw.Req { return NewReq("PUT", "/pxforeign", "", nil, nil) }},
+		{Name: "CreateBucket with object lock", Req: func(map[string]string) *gw.Req {
+			return NewReq("PUT", "/"+c18B, "", H("x-amz-bucket-object-lock-enabled", "true"), nil)
+		}},
+		{Name: "PutObject with legal hold", Req: func(map[string]string) *gw.Req {
+			return NewReq("PUT", gw.ObjPath(c18B, "k1"), "", H("x-amz-object-lock-legal-hold", "ON"), []byte("held"))
+		}},
+		{Name: "PutObject aws-chunked with signed chunks", Stream: true, Req: func(map[string]string) *gw.Req {
+			return NewReq("PUT", gw.ObjPath(c18B, "k1"), "", H("x-amz-meta-color", "Chunked"), []byte("streamed in three chunks"))
 		}},
 		{Name: "PutObject with tagging header", Req: func(map[string]string) *gw.Req {
 			return NewReq("PUT", gw.ObjPath(c18B, "k3"), "", H("x-amz-tagging", "t1=v1&t2=v2"), []byte("tagged"))
@@ -413,7 +425,14 @@ func c18Run(do func(r *gw.Req) *gw.Resp, ops []c18Op, prog []int, cred gw.Creds)
 	for _, oi := range prog {
 		op := ops[oi]
 		req := op.Req(st)
-		if op.BadSig {
+		if op.Stream {
+			payload := req.Body
+			req.Body = nil
+			req.Set("x-amz-decoded-content-length", fmt.Sprint(len(payload)))
+			req.Set("Content-Encoding", "aws-chunked")
+			sg := gw.Sign(req, cred, gw.SignOpts{PayloadHash: gw.StreamSigned})
+			req.Body, _ = gw.EncodeSigned(sg, gw.SplitChunks(payload, []int{5, 1}), "")
+		} else if op.BadSig {
 			gw.Sign(req, gw.Creds{Access: cred.Access, Secret: "not-the-secret-of-this-account"}, gw.SignOpts{})
 		} else {
 			gw.Sign(req, cred, gw.SignOpts{NoSignHeaders: []string{"range"}})
@@ -446,7 +465,7 @@ func C18(r *ck.Run) {
 	if r.Thorough() {
 		depth = 3
 	}
-	r.Rule(fmt.Sprintf("every program of length <= %d over 33 (37 thorough) bucket, object, tagging, policy, listing and multipart operations (four of them signed with a wrong secret, one with a checksum that is not the body's, one completion that states object size 0) is executed twice from an empty store: through a gateway whose backend is s3proxy pointed at an endpoint process (a posix versitygw on loopback TCP), and against that endpoint directly; after every step 30 read requests (ListBuckets, GET whole / ranges, HEAD, attributes, tagging, listings v1/v2 with prefix / delimiter / max-keys, uploads, parts, bucket tagging / policy / ACL / versioning) are issued on both sides and every response (status, error code, content headers, user metadata, ETag, body with timestamps and ids masked) must be equal; callers: root and a userplus account that owns the bucket; distinct = (caller, program)", depth))
+	r.Rule(fmt.Sprintf("every program of length <= %d over 37 (41 thorough) bucket, object, tagging, policy, listing and multipart operations (four of them signed with a wrong secret, one with a checksum that is not the body's, one completion that states object size 0) is executed twice from an empty store: through a gateway whose backend is s3proxy pointed at an endpoint process (a posix versitygw on loopback TCP), and against that endpoint directly; after every step 30 read requests (ListBuckets, GET whole / ranges, HEAD, attributes, tagging, listings v1/v2 with prefix / delimiter / max-keys, uploads, parts, bucket tagging / policy / ACL / versioning) are issued on both sides and every response (status, error code, content headers, user metadata, ETag, body with timestamps and ids masked) must be equal; callers: root and a userplus account that owns the bucket; distinct = (caller, program)", depth))
 	r.Assume("the 'other S3 endpoint' is versitygw itself (posix backend) in a child process; error documents are compared by status and code only")
 	ops := c18Ops(r.Thorough())
 	var progs [][]int
@@ -514,6 +533,7 @@ func C18(r *ck.Run) {
 		byName("CreateBucket", "PutObject small+meta", "PutObjectTagging", "PutObjectTagging empty tag set", "PutObjectTagging"),
 		byName("CreateBucket", "PutBucketVersioning Enabled", "PutObject small+meta", "PutObject empty", "DeleteObject", "PutObject small+meta"),
 		byName("CreateBucket", "CreateMultipartUpload", "UploadPart", "CompleteMultipartUpload stating object size 0", "CompleteMultipartUpload"),
+		byName("CreateBucket with object lock", "PutObject with legal hold", "DeleteObject", "DeleteObject versionId=null"),
 		byName("CreateBucket", "PutObject small+meta", "PutObject small, wrong secret, own checksum", "PutObject small, wrong checksum"),
 	)
 	r.Extra("programs", len(progs))
